@@ -8,22 +8,29 @@ from vlib.harness import Outcome, TOL_W, scale_of
 
 ID = "C08"
 TITLE = "Iterative projection keeps feasible weights, converges to the L2-nearest point"
-RULE = ("Hypothesis draws a small lattice (rank 1-3, prod(sizes) <= 36; "
-        "thorough <= 81), a valid configuration with ONE constraint family or a "
-        "random combination (monotonicity, unimodality, Edgeworth / trapezoid "
-        "trusts of both directions, monotonic / range dominance, joint "
-        "monotonicity, joint unimodality), units 1-2 and a kernel (far "
-        "infeasible at scales 1e-3..1e3, or KKT-certified feasible/boundary), or "
-        "a PWL calibrator configuration. project_by_dykstra runs inside "
-        "tf.function with num_iterations in {4, 1024} (8192 as the fallback "
-        "horizon), the strict LatticeConstraints with 1024 iterations, the PWL "
-        "projection with 1000. Oracle: float64 constraint rows for the largest "
-        "violation, KKT-certified NNLS/LDP nearest point. Non-trivial: the "
-        "kernel violates the configured set by > 0.05*S (or is a non-constant "
-        "feasible kernel for the fixed-point clause); distinct by SHA-1 of the "
-        "case.")
+RULE = ("Hypothesis draws a small lattice (rank 1-3, or rank 4 of size-2 "
+        "dimensions for the pair families, one dimension of size 5-6 in a "
+        "third of the single-family cases, prod(sizes) <= 36; thorough <= "
+        "81), a valid configuration with ONE constraint family or a random "
+        "combination (monotonicity, unimodality, Edgeworth / trapezoid trusts "
+        "of both directions, monotonic / range dominance, joint monotonicity, "
+        "joint unimodality with 1-2 dimensions in one or two groups), units "
+        "1-3 and a kernel (far infeasible at scales 1e-3..1e3 incl. sorted / "
+        "constant / zero kernels, KKT-certified feasible/boundary, boundary "
+        "plus 1e-3..1e-2*S of noise, or strictly interior with slack >= "
+        "0.05*S in every constraint row), or a PWL calibrator configuration "
+        "(monotonicity, convexity, one/two-sided bounds, clamps). "
+        "project_by_dykstra runs with num_iterations 0 and 1 eagerly, 4 "
+        "eagerly or inside tf.function, 1024 inside tf.function (8192 as the "
+        "fallback horizon), the strict LatticeConstraints with 1024 "
+        "iterations, the PWL projection with 1000 (fixed points: 0, 1, 8 or "
+        "1000). Oracle: float64 constraint rows for the largest violation, "
+        "KKT-certified NNLS/LDP nearest point. Non-trivial: the kernel "
+        "violates the configured set by > 0.05*S (> 1e-4*S for the "
+        "near-boundary kernels), or is a non-constant feasible kernel for the "
+        "fixed-point clause; distinct by SHA-1 of the case.")
 NT_FLOOR = 0.5
-BUDGET = {"quick": 60, "thorough": 900}
+BUDGET = {"quick": 96, "thorough": 1050}
 TECHNIQUE = ("property-based testing (Hypothesis): differential against a "
              "KKT-certified float64 QP reference (NNLS / Lawson-Hanson LDP) at "
              "finite iteration horizons")
@@ -35,7 +42,7 @@ LEVEL_TEXT = ("Generated-input exploration of the Dykstra projections with an "
               "Euclidean projection for the exactly-projected families, the "
               "strict layer constraint stays within 2e-3*S of it, and the PWL "
               "projection agrees with the certified projection for "
-              "monotonicity + bounds.")
+              "monotonicity + bounds (clamped bounds as equalities).")
 LEVEL_NOTE = ("'Tends to zero' / 'limit' are judged at finite horizons (1024, "
               "fallback 8192 iterations) with frozen thresholds calibrated "
               "with a >= 100x margin over measured noise (DESIGN C08); a case "
@@ -57,15 +64,46 @@ def _empty_cfg(sizes):
           "omin": None, "omax": None}
 
 
+PAIR_FAMS = ("ew", "tz", "mdom", "rdom", "jmono")
+BIG_FAMS = ("mono", "unimod", "ew", "tz", "mdom", "jmono")
+
+
+def _trim(sizes, maxw, floor, keep=None):
+  """Shrinks / drops dimensions other than `keep` until prod(sizes) <= maxw."""
+  sizes = list(sizes)
+  while int(np.prod(sizes)) > maxw:
+    rest = [j for j in range(len(sizes)) if j != keep]
+    j = max(rest, key=lambda q: sizes[q])
+    if sizes[j] > floor:
+      sizes[j] -= 1
+    else:
+      sizes.pop(j)
+      if keep is not None and j < keep:
+        keep -= 1
+  return sizes
+
+
 @st.composite
 def _single_family_cfg(draw, fam, maxw):
   need3 = fam in ("unimod", "junimod")
-  rank = draw(st.integers(1, 3)) if fam in ("mono", "unimod", "junimod") else (
-      draw(st.sampled_from([2, 3, 3])))
+  rank = draw(st.sampled_from([1, 2, 2, 3, 3])) if fam == "junimod" else (
+      draw(st.integers(1, 3)) if fam in ("mono", "unimod") else
+      draw(st.sampled_from([2, 3, 3, 4, 4])))
   # pair families get sizes from {2,2,3,4}: a size-2 dimension next to a
   # larger one exercises the even/odd constraint-group bookkeeping.
   sizes = [draw(st.integers(3, 4)) if need3 else
            draw(st.sampled_from([2, 2, 3, 4])) for _ in range(rank)]
+  if rank == 4:
+    # two bystander dimensions, non-adjacent pairs such as (0, 3)
+    sizes = [2, 2, 2, 2]
+    if draw(st.booleans()):
+      sizes[draw(st.integers(0, 3))] = 3
+  elif fam in BIG_FAMS and draw(st.sampled_from([False, False, True])):
+    # one dimension of size 5 or 6: >= 2 constraints in each even/odd group
+    # and a unimodal half-length of 3.
+    keep = draw(st.integers(0, rank - 1))
+    sizes[keep] = draw(st.sampled_from([5, 6]))
+    sizes = _trim(sizes, maxw, 3 if need3 else 2, keep)
   while int(np.prod(sizes)) > maxw:
     i = int(np.argmax(sizes))
     if sizes[i] > (3 if need3 else 2):
@@ -81,6 +119,8 @@ def _single_family_cfg(draw, fam, maxw):
       cfg["mono"][draw(st.sampled_from(dims))] = 1
   elif fam == "unimod":
     d = draw(st.sampled_from(dims))
+    if max(sizes) >= 5 and draw(st.booleans()):
+      d = int(np.argmax(sizes))
     cfg["unimod"][d] = draw(st.sampled_from([-1, 1]))
   elif fam in ("ew", "tz"):
     m = draw(st.sampled_from(dims))
@@ -117,10 +157,28 @@ def _single_family_cfg(draw, fam, maxw):
       o = draw(st.sampled_from(rest))
       cfg["jmono"].append(draw(st.sampled_from([[a, o], [o, b]])))
   else:
-    k = draw(st.integers(1, min(2, rank)))
-    ds = draw(st.permutations(dims))[:k]
-    cfg["junimod"] = [[list(ds), draw(st.sampled_from(["valley", "peak"]))]]
+    perm = list(draw(st.permutations(dims)))
+    if rank >= 2 and draw(st.booleans()):
+      # two disjoint groups
+      cut = draw(st.integers(1, rank - 1))
+      cfg["junimod"] = [
+          [perm[:cut], draw(st.sampled_from(["valley", "peak"]))],
+          [perm[cut:], draw(st.sampled_from(["valley", "peak"]))]]
+    else:
+      # a group of 3 dimensions costs > 20 s per case (216 hyperplane
+      # projections per iteration are traced): thorough-tier catalog only.
+      k = draw(st.sampled_from(list(range(1, min(rank, 2) + 1))))
+      cfg["junimod"] = [[perm[:k], draw(st.sampled_from(["valley", "peak"]))]]
   return cfg
+
+
+LATTICE_KINDS = ["normal", "normal", "normal", "uniform", "uniform", "ints",
+                 "ints", "antisorted", "antisorted", "spike", "spike", "ties",
+                 "ties", "sorted", "constant", "zeros"]
+# raw: far infeasible; feasible: exact projection (boundary); near: boundary +
+# 1e-3..1e-2*S of noise; interior: every constraint row has slack >= 0.05*S.
+LATTICE_KMODES = ["raw", "raw", "raw", "feasible", "feasible", "near", "near",
+                  "interior", "interior"]
 
 
 @st.composite
@@ -128,7 +186,7 @@ def _lattice_case(draw, tier):
   maxw = 36 if tier == "quick" else 81
   fam = draw(st.sampled_from(
       ["mono", "unimod", "ew", "ew", "ew", "tz", "tz", "mdom", "mdom", "mdom", "rdom", "rdom",
-       "jmono", "jmono", "junimod"] + ["combo"] * 5))
+       "jmono", "jmono", "junimod", "junimod"] + ["combo"] * 5))
   if fam == "combo":
     sizes = draw(S.lattice_sizes(max_rank=3, min_rank=2,
                                  max_size=4 if tier == "quick" else 5,
@@ -139,13 +197,13 @@ def _lattice_case(draw, tier):
   else:
     cfg = draw(_single_family_cfg(fam, maxw))
   n = int(np.prod(cfg["sizes"]))
-  units = draw(st.sampled_from([1, 1, 2]))
+  units = draw(st.sampled_from([1, 1, 2, 3]))
   return {"target": "lattice", "cfg": cfg, "units": units,
-          "kmode": draw(st.sampled_from(["raw", "raw", "feasible"])),
+          "kmode": draw(st.sampled_from(LATTICE_KMODES)),
           "kernel": draw(S.array_desc(
-              kinds=["normal", "normal", "uniform", "ints", "antisorted",
-                     "spike", "ties"],
+              kinds=LATTICE_KINDS,
               scales=[1e-3, 1.0, 1.0, 10.0, 1e3], shape=(n, units))),
+          "eager": draw(st.booleans()),
           "aux": draw(S.seeds)}
 
 
@@ -153,8 +211,9 @@ def _lattice_case(draw, tier):
 def _pwl_case(draw, tier):
   cfg = draw(S.pwl_config(max_k=6 if tier == "quick" else 10, max_units=2,
                           allow_cyclic=False, iters=(1000,)))
-  cfg["clamp_min"] = cfg["clamp_max"] = False
-  if draw(st.integers(0, 2)) > 0:
+  kmode = draw(st.sampled_from(["raw", "raw", "feasible"]))
+  mode = draw(st.sampled_from(["nearest"] * 3 + ["conv", "conv", "free"]))
+  if mode == "nearest":
     # the class for which the statement claims the nearest point
     cfg["conv"] = 0
     if cfg["mono"] == 0:
@@ -165,11 +224,38 @@ def _pwl_case(draw, tier):
           cfg["omax"] - 1.0 if cfg["omax"] is not None else 0.0)
       cfg["omin"] = S.f32(lo)
       cfg["omax"] = S.f32(lo + draw(st.sampled_from([0.5, 1.0, 3.0])))
+  elif mode == "conv":
+    # the CONVEXITY_0/1 Dykstra groups: fixed points in half of these cases,
+    # >= 3 keypoints (so that there is a pair of heights), mostly unequal gaps
+    # (the projection of a pair weighs the heights by the segment lengths).
+    cfg["conv"] = draw(st.sampled_from([-1, 1]))
+    kmode = draw(st.sampled_from(["raw", "feasible"]))
+    k = draw(st.sampled_from([3, 4, 4, 5, 6]))
+    gaps = [draw(st.sampled_from(S.SPACINGS)) for _ in range(k - 1)]
+    if draw(st.sampled_from([False, False, False, True])):
+      gaps = [gaps[0]] * (k - 1)
+    kp = [draw(st.sampled_from([-100.0, -1.0, 0.0, 0.5, 10.0]))]
+    for g in gaps:
+      kp.append(kp[-1] + g)
+    kp = S.f32(kp)
+    for i in range(1, k):
+      if kp[i] <= kp[i - 1]:   # float32 rounding must keep them increasing
+        kp[i] = float(np.nextafter(np.float32(kp[i - 1]), np.float32(np.inf)))
+    cfg["keypoints"] = kp
+  # clamps are valid for monotone calibrators with the respective bound only.
+  for side, bound in (("clamp_min", "omin"), ("clamp_max", "omax")):
+    cfg[side] = bool(cfg["mono"] != 0 and cfg[bound] is not None and
+                     draw(st.sampled_from([False, True] if mode == "nearest"
+                                          else [False, False, True])))
+  # a fixed point is a fixed point at every iteration count.
+  cfg["iters"] = draw(st.sampled_from([0, 1, 8, 1000])) if (
+      kmode == "feasible") else 1000
   rows = len(cfg["keypoints"])
-  return {"target": "pwl", "cfg": cfg,
-          "kmode": draw(st.sampled_from(["raw", "raw", "feasible"])),
+  return {"target": "pwl", "cfg": cfg, "kmode": kmode,
           "kernel": draw(S.array_desc(
-              kinds=["normal", "uniform", "ints", "antisorted", "spike"],
+              kinds=["normal", "normal", "uniform", "uniform", "ints", "ints",
+                     "antisorted", "antisorted", "spike", "spike", "sorted",
+                     "zeros"],
               scales=[1e-3, 1.0, 1.0, 10.0, 1e3], shape=(rows, cfg["units"]))),
           "aux": draw(S.seeds)}
 
@@ -207,28 +293,40 @@ CATALOG = [
     _cat([4, 3], [0, 1], unimod=[-1, 0]),
     _cat([3, 3], [0, 0], junimod=[[[0, 1], "valley"]]),
     _cat([4, 3], [0, 0], junimod=[[[1], "peak"]]),
+    _cat([3, 2, 4], [0, 1, 0], junimod=[[[0], "peak"], [[2], "valley"]]),
+    _cat([6, 2], [1, 1], mdom=[[0, 1]]),
+    _cat([2, 2, 2, 2], [1, 0, 0, 1], rdom=[[0, 3]]),
     _cat([4, 3, 2], [1, 1, 1]),
     _cat([3, 3], [1, 1], mdom=[[0, 1]], jmono=[[0, 1]]),
 ]
 
 
+CATALOG_THOROUGH = [
+    _cat([3, 3, 3], [0, 0, 0], junimod=[[[0, 2, 1], "valley"]]),
+]
+
+
 @st.composite
 def _catalog_case(draw, tier):
-  cfg = draw(st.sampled_from(CATALOG))
+  cfg = draw(st.sampled_from(
+      CATALOG + (CATALOG_THOROUGH if tier == "thorough" else [])))
   n = int(np.prod(cfg["sizes"]))
-  units = draw(st.sampled_from([1, 1, 2]))
+  units = draw(st.sampled_from([1, 1, 2, 3]))
   return {"target": "lattice", "cfg": cfg, "units": units,
-          "kmode": draw(st.sampled_from(["raw", "raw", "raw", "feasible"])),
+          "kmode": draw(st.sampled_from(["raw", "raw", "raw", "feasible",
+                                         "near", "interior"])),
           "kernel": draw(S.array_desc(
               kinds=["normal", "normal", "uniform", "ints", "antisorted"],
               scales=[1e-3, 1.0, 1.0, 10.0, 1e3], shape=(n, units))),
+          "eager": draw(st.sampled_from([False, False, False, True])),
           "aux": draw(S.seeds)}
 
 
 def strategy(tier):
+  # PWL cases are ~4x cheaper than lattice cases, so three of seven.
   return st.one_of(_lattice_case(tier), _lattice_case(tier),
                    _lattice_case(tier), _pwl_case(tier), _pwl_case(tier),
-                   _catalog_case(tier))
+                   _pwl_case(tier), _catalog_case(tier))
 
 
 def _families(cfg):
@@ -243,7 +341,7 @@ def _families(cfg):
 _FN_CACHE = {}
 
 
-def _dykstra_fn(cfg, k):
+def _dykstra_fn(cfg, k, eager=False):
   import tensorflow as tf
   from tensorflow_lattice.python import lattice_lib as L
   kw = S.lattice_kwargs(cfg)
@@ -257,10 +355,11 @@ def _dykstra_fn(cfg, k):
       joint_monotonicities=kw.get("joint_monotonicities"),
       joint_unimodalities=kw.get("joint_unimodalities"))
 
-  @tf.function
   def f(w):
     return L.project_by_dykstra(w, num_iterations=k, **args)
-  return f
+  # eager: the python-level tf.while_loop path (what a user calling the
+  # function directly gets); otherwise the traced graph Keras runs in fit().
+  return f if eager else tf.function(f)
 
 
 def _max_violation(cfg, k64):
@@ -294,6 +393,21 @@ def _rdom_mixed_corner_tight(cfg, k64, tol):
   return False
 
 
+def _interior_kernel(cfg, raw, margin):
+  """Nearest kernel to `raw` whose every constraint row has slack >= margin
+  (KKT-certified); None when the configured cone has no interior."""
+  rows = R.constraint_rows(cfg)
+  a = R.rows_matrix(rows, raw.shape[0])
+  out = np.zeros(raw.shape)
+  for u in range(raw.shape[1]):
+    w, info = R.project_polyhedron(a, np.full(a.shape[0], margin),
+                                   raw[:, u].astype(np.float64))
+    if not info["certified"]:
+      return None
+    out[:, u] = w
+  return out
+
+
 def _run_lattice(case, out):
   import tensorflow as tf
   import tensorflow_lattice as tfl
@@ -301,52 +415,103 @@ def _run_lattice(case, out):
   fams = _families(cfg)
   n = int(np.prod(cfg["sizes"]))
   raw = S.materialize(case["kernel"], (n, units))
-  out.label("lattice", "families:" + ("+".join(fams) or "none"),
-            "kernel:" + case["kmode"], "units:%d" % units)
-  if len(fams) == 1:
-    out.label("single-family:" + fams[0])
-  elif len(fams) > 1:
-    out.label("combination")
+  kmode = case["kmode"]
+  eager = bool(case.get("eager"))
   sig = dict(target="lattice", fams="+".join(fams))
+
+  def nearest(k):
+    res = np.zeros((n, units))
+    for u in range(units):
+      w, info = R.lattice_nearest(cfg, k[:, u].astype(np.float64))
+      if not info["certified"]:
+        return None
+      res[:, u] = w
+    return res
+
   # nearest feasible point per unit (all configured families)
-  near = np.zeros((n, units))
-  for u in range(units):
-    w, info = R.lattice_nearest(cfg, raw[:, u].astype(np.float64))
-    if not info["certified"]:
+  near = nearest(raw)
+  if near is None:
+    out.discard = "uncertified-reference"
+    return
+  fixed = kmode == "feasible"
+  k32 = raw
+  if kmode == "interior":
+    ki = _interior_kernel(cfg, raw, 0.05 * scale_of(raw)) if fams else None
+    if ki is None:
+      kmode = "feasible"            # no interior (implied equalities)
+      fixed = True
+      out.label("interior:none(implied equalities)->boundary kernel")
+    else:
+      k32 = ki.astype(np.float32)
+      fixed = True
+  if kmode == "feasible":
+    k32 = near.astype(np.float32)
+  elif kmode == "near":
+    rs = np.random.RandomState(case["aux"])
+    eps = 10.0 ** rs.uniform(-3.0, -2.0) * scale_of(near)
+    k32 = (near + eps * rs.uniform(-1, 1, size=near.shape)).astype(np.float32)
+    near = nearest(k32)
+    if near is None:
       out.discard = "uncertified-reference"
       return
-    near[:, u] = w
-  if case["kmode"] == "feasible":
-    k32 = near.astype(np.float32)
-  else:
-    k32 = raw
+  out.label("lattice", "families:" + ("+".join(fams) or "none"),
+            "kernel:" + kmode, "units:%d" % units,
+            "rank:%d" % len(cfg["sizes"]))
+  if len(fams) == 1:
+    out.label("single-family:" + fams[0])
+    if max(cfg["sizes"]) >= 5:
+      out.label("size>=5:" + fams[0])
+  elif len(fams) > 1:
+    out.label("combination")
+  if max(cfg["sizes"]) >= 5:
+    out.label("size>=5")
+  if len(cfg["junimod"]) > 1:
+    out.label("junimod:two-groups")
+  if any(len(g[0]) >= 3 for g in cfg["junimod"]):
+    out.label("junimod:3-dims")
+  if eager:
+    out.label("eager:4-iterations")
   k64 = k32.astype(np.float64)
   s = scale_of(k64)
   v0 = _max_violation(cfg, k64)
-  f_small, f_big = _dykstra_fn(cfg, K_SMALL), _dykstra_fn(cfg, K_BIG)
+  f_small = _dykstra_fn(cfg, K_SMALL, eager=eager)
+  f_big = _dykstra_fn(cfg, K_BIG)
   r_small = f_small(tf.constant(k32)).numpy().astype(np.float64)
   r_big = f_big(tf.constant(k32)).numpy().astype(np.float64)
   out.checks += 1
   if not (np.all(np.isfinite(r_small)) and np.all(np.isfinite(r_big))):
     out.violate("non-finite projection result", kind="finite", **sig)
     return
-  if case["kmode"] == "feasible":
+  # iteration counts 0 (early return) and 1, through the eager while_loop
+  r_0 = _dykstra_fn(cfg, 0, eager=True)(tf.constant(k32)).numpy().astype(
+      np.float64)
+  r_1 = _dykstra_fn(cfg, 1, eager=True)(tf.constant(k32)).numpy().astype(
+      np.float64)
+  out.checks += 1
+  if not (np.all(np.isfinite(r_0)) and np.all(np.isfinite(r_1))):
+    out.violate("non-finite projection result at 0 / 1 iterations",
+                kind="finite", **sig)
+    return
+  if fixed:
     # (i) fixed point at every horizon
     out.nontrivial = bool(np.ptp(k64) > 0)
-    for name, r in (("4", r_small), ("1024", r_big)):
+    out.label("fixed-point@0,1(eager),4,1024")
+    for name, r in (("0", r_0), ("1", r_1), ("4", r_small), ("1024", r_big)):
       out.checks += 1
       moved = float(np.max(np.abs(r - k64)))
       out.info["moved_over_S@" + name] = moved / s
       if moved > TOL_W * s:
-        out.violate("feasible kernel moved by %.3g (tolerance %.3g) at %s "
-                    "iterations" % (moved, TOL_W * s, name), kind="fixed-point",
+        out.violate("%s kernel moved by %.3g (tolerance %.3g) at %s "
+                    "iterations" % (kmode, moved, TOL_W * s, name),
+                    kind="fixed-point",
                     rdom_mixed_corner_tight=_rdom_mixed_corner_tight(
                         cfg, k64, 10 * TOL_W * s), **sig)
     return
-  out.nontrivial = bool(fams and v0 > 0.05 * s)
+  out.nontrivial = bool(
+      fams and v0 > (1e-4 if kmode == "near" else 0.05) * s)
   if not fams:
     out.checks += 1
-    if not np.array_equal(r_big, k64):
+    if not all(np.array_equal(r, k64) for r in (r_0, r_1, r_small, r_big)):
       out.violate("projection with no constraint changed the kernel",
                   kind="fixed-point", **sig)
     return
@@ -435,6 +600,13 @@ def _pwl_rows(cfg, rows):
   if cfg["omax"] is not None:
     g.append(-hi_row)
     h.append(-float(cfg["omax"]))
+  # a clamped bound is reached: the inequality becomes an equality.
+  if cfg["omin"] is not None and cfg.get("clamp_min"):
+    g.append(-lo_row)
+    h.append(-float(cfg["omin"]))
+  if cfg["omax"] is not None and cfg.get("clamp_max"):
+    g.append(hi_row.copy())
+    h.append(float(cfg["omax"]))
   return np.array(g).reshape(-1, rows), np.array(h)
 
 
@@ -447,7 +619,16 @@ def _run_pwl(case, out):
   raw = S.materialize(case["kernel"], (rows, units))
   has_bounds = cfg["omin"] is not None or cfg["omax"] is not None
   out.label("pwl", "mono:%d" % cfg["mono"], "conv:%d" % cfg["conv"],
-            "bounded" if has_bounds else "unbounded", "kernel:" + case["kmode"])
+            "bounded" if has_bounds else "unbounded", "kernel:" + case["kmode"],
+            "pwl:conv=%d,kernel=%s" % (cfg["conv"], case["kmode"]))
+  clamped = bool(cfg.get("clamp_min") or cfg.get("clamp_max"))
+  if clamped:
+    out.label("pwl:clamped", "pwl:clamped,kernel=" + case["kmode"])
+  # feasible kernels are fixed points at every iteration count; the limit
+  # clauses use 1000 iterations.
+  iters = int(cfg.get("iters", 1000)) if case["kmode"] == "feasible" else 1000
+  if case["kmode"] == "feasible":
+    out.label("pwl:fixed-point@iters=%d" % iters)
   sig = dict(target="pwl", mono=cfg["mono"] != 0, conv=cfg["conv"] != 0,
              bounded=has_bounds)
   omin_c, omax_c = c04._bct(cfg)
@@ -463,7 +644,7 @@ def _run_pwl(case, out):
         weights=w, monotonicity=cfg["mono"], output_min=omin, output_max=omax,
         output_min_constraints=omin_c, output_max_constraints=omax_c,
         convexity=cfg["conv"], lengths=tf.constant(lens32),
-        num_projection_iterations=1000)
+        num_projection_iterations=iters)
 
   if case["kmode"] == "feasible":
     fk = c04.feasible_kernel(cfg, rows, case["aux"])
@@ -492,6 +673,8 @@ def _run_pwl(case, out):
   out.nontrivial = bool(in_m > 0.05 * s)
   if cfg["mono"] != 0 and cfg["conv"] == 0 and has_bounds:
     out.label("pwl:nearest-judged")
+    if clamped:
+      out.label("pwl:nearest-judged,clamped")
     g, h = _pwl_rows(cfg, rows)
     for u in range(units):
       w, info = R.project_polyhedron(g, h, k64[:, u])
@@ -511,8 +694,21 @@ def _run_pwl(case, out):
 
 def run_case(case):
   out = Outcome()
-  if case["target"] == "lattice":
-    _run_lattice(case, out)
-  else:
-    _run_pwl(case, out)
+  try:
+    if case["target"] == "lattice":
+      _run_lattice(case, out)
+    else:
+      _run_pwl(case, out)
+  except Exception as e:  # pylint: disable=broad-except
+    # AutoGraph re-raises errors of converted library code from generated
+    # files, so the harness cannot attribute them by traceback; the error text
+    # still names the library file.  Same verdict as for an eager library
+    # exception; anything else is left to the harness.
+    if "/tensorflow_lattice/" not in str(e):
+      raise
+    out = Outcome()
+    out.nontrivial = True
+    out.label("exception")
+    out.violate("%s: %s" % (type(e).__name__, str(e)[:400]), kind="exception",
+                exc=type(e).__name__, where="traced with tf.function")
   return out
